@@ -11,7 +11,8 @@
    *os.File; Wait's error precedence), the kernel (a child consumes its
    standard input at once; a file is a byte sequence).
    Ghost fields (st_log, st_overlap) record what happened; they never
-   influence the computed behaviour. *)
+   influence the computed behaviour.  st_unmod marks histories whose outcome
+   the model does not decide (timing between a child and the program). *)
 From Verif Require Import Lib.Base.
 
 Definition name := Z.
@@ -37,6 +38,10 @@ Definition fs_get (fs : list (name * bytes)) (n : name) : bytes :=
   match alookup n fs with Some b => b | None => [] end.
 Definition fs_append (fs : list (name * bytes)) (n : name) (b : bytes) :=
   aset n (fs_get fs n ++ b) fs.
+
+(* write(2) on a descriptor without O_APPEND whose offset is off *)
+Definition write_at (off : nat) (content data : bytes) : bytes :=
+  firstn off content ++ repeat 0 (off - length content)%nat ++ data ++ skipn (off + length data)%nat content.
 
 (* ---- child processes (what a shell command does; a parameter of the model) ---- *)
 Inductive wstatus := Exited (e : Z) | Signaled (sg : Z) | CoreDumped (sg : Z) | WaitIOErr.
@@ -146,6 +151,7 @@ Definition buf_bytes (cap : nat) (buf p : bytes) : bytes * bytes :=
 Inductive okind := KFile | KCmd.
 Record ostream := {
   os_kind : okind;
+  os_off : option nat;  (* KFile opened with > : the descriptor's file offset (None: O_APPEND / pipe) *)
   os_buf : bytes;
   os_cgfail : bool;   (* KCmd: the goroutine copying the child's stdout has stopped with an error *)
   os_active : bool    (* KCmd: the child has been given something to write to the shared stdout *)
@@ -215,10 +221,18 @@ Definition is_osfile (m : omode) : bool := match m with OsFile => true | _ => fa
 (* a command stream whose child may be writing to the shared stdout right now *)
 Definition any_active (o : list (name * ostream)) : bool :=
   existsb (fun e => os_active (snd e)) o.
+(* a live child started by print | cmd: unless Output is an *os.File, os/exec
+   runs a goroutine for it that sits in Output's ReadFrom / Write *)
+Definition any_cmd (o : list (name * ostream)) : bool :=
+  existsb (fun e => match os_kind (snd e) with KCmd => true | KFile => false end) o.
 
-(* ghost: the main goroutine is about to use p.output *)
+(* the main goroutine is about to use p.output.  Ghost: st_overlap records
+   that a child's copying goroutine was alive at that moment (two users of one
+   io.Writer); if that child may actually be writing, the outcome is a matter
+   of timing (st_unmod). *)
 Definition touch (E : env) (s : state) : state :=
-  if negb (is_osfile (e_mode E)) && any_active (st_outs s) then set_overlap s else s.
+  let s := if negb (is_osfile (e_mode E)) && any_cmd (st_outs s) then set_overlap s else s in
+  if any_active (st_outs s) then set_unmod s else s.
 
 (* p.output.(flusher).Flush(), when p.output has a Flush method *)
 Definition flush_stdout (E : env) (s : state) : state * bool :=
@@ -314,25 +328,32 @@ Definition deliver (E : env) (s : state) (n : name) (o : ostream) (data : bytes)
   match data with
   | [] => (s, o)
   | _ =>
-      let s := match stream_target E n o with
-               | Some t => set_fs s (fs_append (st_fs s) t data)
-               | None => s
-               end in
       match os_kind o with
+      | KFile =>
+          match os_off o with
+          | Some off =>
+              (set_fs s (aset n (write_at off (fs_get (st_fs s) n) data) (st_fs s)),
+               {| os_kind := KFile; os_off := Some (off + length data)%nat; os_buf := os_buf o;
+                  os_cgfail := os_cgfail o; os_active := os_active o |})
+          | None => (set_fs s (fs_append (st_fs s) n data), o)
+          end
       | KCmd =>
+          let s := match c_sink (e_spec E n) with
+                   | Some t => set_fs s (fs_append (st_fs s) t data)
+                   | None => s
+                   end in
           if c_echo (e_spec E n) then
             match child_out E s (os_cgfail o) data with
-            | (s', ok) => (s', {| os_kind := KCmd; os_buf := os_buf o; os_cgfail := negb ok; os_active := true |})
+            | (s', ok) => (s', {| os_kind := KCmd; os_off := None; os_buf := os_buf o; os_cgfail := negb ok; os_active := true |})
             end
           else (s, o)
-      | KFile => (s, o)
       end
   end.
 
 (* outFileStream/outCmdStream Flush *)
 Definition flush_ostream (E : env) (s : state) (n : name) (o : ostream) : state * ostream :=
   match deliver E s n o (os_buf o) with
-  | (s', o') => (s', {| os_kind := os_kind o'; os_buf := []; os_cgfail := os_cgfail o'; os_active := os_active o' |})
+  | (s', o') => (s', {| os_kind := os_kind o'; os_off := os_off o'; os_buf := []; os_cgfail := os_cgfail o'; os_active := os_active o' |})
   end.
 
 (* io.WriteString on the stream's bufio.Writer *)
@@ -340,7 +361,7 @@ Definition write_ostream (E : env) (s : state) (n : name) (o : ostream) (p : byt
   match buf_bytes (e_fcap E) (os_buf o) p with
   | (flushed, buf') =>
       match deliver E s n o flushed with
-      | (s', o') => (s', {| os_kind := os_kind o'; os_buf := buf'; os_cgfail := os_cgfail o'; os_active := os_active o' |})
+      | (s', o') => (s', {| os_kind := os_kind o'; os_off := os_off o'; os_buf := buf'; os_cgfail := os_cgfail o'; os_active := os_active o' |})
       end
   end.
 
@@ -440,7 +461,7 @@ Definition get_output_stream (E : env) (s : state) (d : dest) : state * option w
               let trunc := match r with RTrunc => true | _ => false end in
               let fs' := if trunc then aset n [] (st_fs s) else fs_append (st_fs s) n [] in
               let s := add_log (set_fs s fs') (EvOpen n KFile trunc) in
-              (set_outs s (aset n {| os_kind := KFile; os_buf := []; os_cgfail := false; os_active := false |} (st_outs s)),
+              (set_outs s (aset n {| os_kind := KFile; os_off := (if trunc then Some 0%nat else None); os_buf := []; os_cgfail := false; os_active := false |} (st_outs s)),
                Some (WStream n))
         | RPipe =>
             let s := if (echo_capable E n && open_echo_cmd E (st_outs s)) || negb (c_drain (e_spec E n))
@@ -451,8 +472,8 @@ Definition get_output_stream (E : env) (s : state) (d : dest) : state * option w
                 match child_out E s1 cg (c_stdout (e_spec E n)) with
                 | (s2, ok) =>
                     let act := negb (match c_stdout (e_spec E n) with [] => true | _ => false end) in
-                    let s2 := if act && negb (is_osfile (e_mode E)) && any_active (st_outs s2) then set_overlap s2 else s2 in
-                    (set_outs s2 (aset n {| os_kind := KCmd; os_buf := []; os_cgfail := negb ok; os_active := act |} (st_outs s2)),
+                    let s2 := if act && any_active (st_outs s2) then set_unmod s2 else s2 in
+                    (set_outs s2 (aset n {| os_kind := KCmd; os_off := None; os_buf := []; os_cgfail := negb ok; os_active := act |} (st_outs s2)),
                      Some (WStream n))
                 end
             end
